@@ -230,6 +230,33 @@ int bad_TAB17_ignored(const unsigned char *in, const unsigned char *end, unsigne
 int good_tested(const unsigned char *in, const unsigned char *end, unsigned char *o) { unsigned char n = utf16_literal_to_utf8(in, end, &o); if (n == 0) { return 0; } return 1; }
 
 /* OWN9: clearing the constant-key bit while the node still holds a key it does not own */
+/* OWN10: in-place write into text the node may only borrow */
+char *bad_OWN10_overwrite(cJSON *object, const char *text)
+{
+    if ((object == NULL) || !(object->type & cJSON_String) || (object->valuestring == NULL) || (text == NULL)) { return NULL; }
+    if (strlen(text) <= strlen(object->valuestring)) { strcpy(object->valuestring, text); return object->valuestring; }
+    return NULL;
+}
+char *good_overwrite_owned(cJSON *object, const char *text)
+{
+    if ((object == NULL) || !(object->type & cJSON_String) || (object->type & cJSON_IsReference)) { return NULL; }
+    if ((object->valuestring == NULL) || (text == NULL)) { return NULL; }
+    if (strlen(text) <= strlen(object->valuestring)) { strcpy(object->valuestring, text); return object->valuestring; }
+    return NULL;
+}
+/* the type word rebuilt from constants: only the reference bit is carried over, the constant-key bit is dropped */
+int bad_OWN9_rebuilt_type(cJSON *object, int value)
+{
+    if (object == NULL) { return 0; }
+    object->type = (value ? cJSON_True : cJSON_False) | (object->type & cJSON_IsReference);
+    return object->type;
+}
+int good_masked_type(cJSON *object, int value)
+{
+    if (object == NULL) { return 0; }
+    object->type = (object->type & ~(cJSON_False | cJSON_True)) | (value ? cJSON_True : cJSON_False);
+    return object->type;
+}
 cJSON_bool bad_OWN9_fast_path(cJSON *replacement, const char *string)
 {
     if ((replacement->string == NULL) || (strcmp(replacement->string, string) != 0))
